@@ -32,7 +32,7 @@ RULE = (
     "start state (0-3 stdout bytes, 0-3 stderr bytes, peer EOF?, peer CLOSE?, combine_stderr?) x one transport task (1-4 of peer "
     "DATA / EXTENDED_DATA / EOF / CLOSE via the real handlers) + 1-2 application tasks (1-3 of recv(n), recv_stderr(n), set_combine_stderr) on a real Channel "
     "(fake transport, real os.pipe/select) under the deterministic scheduler with line-level switch points in pipe.py and "
-    "buffered_pipe.py; schedules from a generated preemption list (<=4) and, in thorough, all schedules with <=k preemptions "
+    "buffered_pipe.py; schedules from a generated preemption list (<=3 anywhere + <=2 placed at the n-th line inside pipe.py set/clear) and, in thorough, all schedules with <=k preemptions "
     "(k=3 lock-level, k=2 line-level) of 80 small transport||application programs; non-trivial = a task switch happened "
     "inside OrPipe.set/clear or PosixPipe.set/clear/set_forever; distinct by SHA-1 of (start, program, schedule)"
 )
@@ -76,11 +76,16 @@ case_st = st.fixed_dictionaries(
             st.lists(peer_op_st, min_size=1, max_size=4),
             st.lists(st.lists(app_op_st, min_size=1, max_size=3), min_size=1, max_size=2),
         ),
-        "sched": S.schedule_strategy(max_pre=4, max_gap=120, max_forced=10),
+        "sched": S.schedule_strategy(max_pre=3, max_gap=80, max_forced=10, max_hot=2, hot_range=14),
     }
 )
 
 CRITICAL = {("pipe.py", "set"), ("pipe.py", "clear"), ("pipe.py", "set_forever")}
+
+
+def in_critical(tag):
+    return tag[0] == "line" and (tag[1], tag[2]) in CRITICAL
+
 
 
 class Bench:
@@ -222,13 +227,32 @@ def judge(bench, res):
         if closed:
             pending.append("closed")
         should = bool(pending)
+        p1, p2, pp, forever = [x.endswith("1") for x in flags.split(",")]
+        # bucket = the layer whose bookkeeping is inconsistent (root cause), not the symptom
         if readable and not should:
-            viol.append(("readable-with-nothing-pending", flags, "%s: descriptor readable, buffers empty, no eof/close (%s)" % (where, flags)))
+            if not (pp or forever):
+                layer = "posixpipe-flag-clear-but-fd-readable"
+            elif p1 or p2:
+                layer = "buffer-event-set-without-data"
+            else:
+                layer = "orpipe-halves-clear-but-pipe-set"
+            viol.append(("readable-with-nothing-pending", layer, "%s: descriptor readable, buffers empty, no eof/close (%s)" % (where, flags)))
         elif should and not readable:
-            viol.append(("unreadable-with-pending", "+".join(pending) + ";" + flags, "%s: descriptor NOT readable although %s (%s)" % (where, "+".join(pending), flags)))
+            if pp or forever:
+                layer = "posixpipe-flag-set-but-fd-empty"
+            elif p1 or p2:
+                layer = "orpipe-half-set-but-pipe-clear"
+            else:
+                layer = "no-buffer-event-set:" + "+".join(pending)
+            viol.append(("unreadable-with-pending", layer, "%s: descriptor NOT readable although %s (%s)" % (where, "+".join(pending), flags)))
         classes.add("checked-readable" if readable else "checked-unreadable")
     if res.outcome == "deadlock":
-        viol.append(("deadlock", repr(sorted(res.waits.values())), "waits=%r" % (res.waits,)))
+        kinds = sorted(set(w[0] if isinstance(w, tuple) else str(w) for w in res.waits.values()))
+        if "os.read" in kinds:
+            bucket = "blocked-in-PosixPipe.clear-os.read"
+        else:
+            bucket = "+".join(kinds)
+        viol.append(("deadlock", bucket, "waits=%r" % (res.waits,)))
     elif res.outcome == "budget":
         viol.append(("no-termination", "step-budget", "waits=%r" % (res.waits,)))
     elif res.outcome != "ok":
@@ -236,7 +260,7 @@ def judge(bench, res):
     for name, info in res.tasks.items():
         if info.exc is not None:
             viol.append(("operation-raised", "%s" % type(info.exc).__name__, "%s: %s" % (name, info.tb)))
-    crit = res.switched_in(lambda tag: tag[0] == "line" and (tag[1], tag[2]) in CRITICAL, preempt_only=False)
+    crit = res.switched_in(in_critical, preempt_only=False)
     if crit:
         classes.add("switch-inside-pipe-set/clear")
     if res.switched_in(lambda tag: tag[0] == "line" and tag[1] == "buffered_pipe.py", preempt_only=False):
@@ -246,7 +270,7 @@ def judge(bench, res):
 
 
 def execute(ctx, case, strategy=None, trace="lines", extra_classes=()):
-    strat = strategy if strategy is not None else S.strategy_from_case(case["sched"])
+    strat = strategy if strategy is not None else S.strategy_from_case(case["sched"], in_critical)
     b = Bench(strat, trace=case.get("trace", trace))
     try:
         b.start(case["start"])
